@@ -38,12 +38,13 @@ claim('C36',
 claim('C28',
       'Bounded symbolic verification by inductive step: from ANY state (occupation vector, order inside each per-species list, '
       'count shape) satisfying the representation invariant, one real Supercell operation (setocc, __setitem__, reorder, '
-      '__imul__/__mul__, fillperiodic, copy, POSCAR->POSCAR_occ) with symbolic arguments (species index an arbitrary integer) '
+      '__imul__/__mul__, fillperiodic, copy, POSCAR->POSCAR_occ) with symbolic arguments (species index an arbitrary integer, site index in '
+      '[-n, n-1], number of per-species maps handed to reorder) '
       'is executed on z3 terms; post-state = invariant + functional specification, decided by z3 on every feasible path. '
       'Because the invariant is inductive this covers edit histories of any length on the listed supercells.',
       'Supercells enumerated (2-4 sites, Nsolute 0..2, with/without interstitial sublattice); |c| <= 10^6 (int64 wrap outside); '
       'POSCAR text is concrete per path (ordering case-split by the solver); group operations enumerated from the supercell group. '
-      'One defect found and fixed (setocc range check, see known_findings.json).',
+      'Three defects found and fixed (setocc range check; negative site index; short reorder mapping: see known_findings.json).',
       'DESIGN.md 3/C28, 2.2')
 
 claim('C23',
@@ -112,11 +113,12 @@ claim('C14',
       'the thorough tier), both omega2 algorithms; LAPACK, exp, sqrt and the Green-function calculator are memoised uninterpreted '
       'functions, the real cache-key hash/equality run on the symbolic arrays; EVERY answer of a history is compared term-wise by z3 '
       'with the answer of a fresh deep copy of the calculator, so hidden state, aliasing with caller-visible arrays or a stale cache '
-      'is a satisfiable difference.',
+      'is a satisfiable difference. Range regeneration (regen sections): a calculator built with one thermodynamic range answers a query, is '
+      'regenerated in place (generate + generatematrices) and must agree term-wise with a freshly built calculator of the new range.',
       'Decides data-flow purity, not numerical values. GF calculator modelled as an environment (function of the rates; fresh arrays '
       'per SetRates; Diffusivity()/biascorrection() return stored arrays as the real one does). Raw-bytes hashing modelled as equal '
       'iff all numbers equal (inputs in [1/16, 8], so +0.0 / -0.0 cannot meet). Calculators enumerated (square, SC quick; + rect-2-site, square Nthermo=2 thorough); <=4 calls. '
-      'Reload histories are in C13. One defect found and fixed (L0vv aliasing).',
+      'Reload histories are in C13 (seed C14e is decided there). Two defects found and fixed (L0vv aliasing; stale vector stars after range regeneration).',
       'DESIGN.md 3/C14, 2.3')
 
 claim('C32',
